@@ -192,7 +192,19 @@ def _support(spec, ctx):
         elif zb == 2:
             x = x - x.max() - float(rng.uniform(0.05, 1.0)) * x.std()
             lo, hi = float(x.min() - 0.5 * x.std()), 0.0
-        model = cu.TruncatedGaussian(minimum=lo, maximum=hi, random_state=int(rng.integers(1 << 30)))
+        # the bounds reach the fitted object by keyword or by position, directly or through the selecting wrapper
+        # (which fits a copy of the prototype made by get_instance)
+        via = ['keyword', 'positional', 'wrapper-positional', 'wrapper-keyword'][spec['seed'] % 4]
+        where['via'] = via
+        rs = int(rng.integers(1 << 30))
+        if via == 'keyword':
+            model = cu.TruncatedGaussian(minimum=lo, maximum=hi, random_state=rs)
+        elif via == 'positional':
+            model = cu.TruncatedGaussian(lo, hi, rs)
+        elif via == 'wrapper-positional':
+            model = cu.Univariate(candidates=[cu.TruncatedGaussian(lo, hi)], random_state=rs)
+        else:
+            model = cu.Univariate(candidates=[cu.TruncatedGaussian(minimum=lo, maximum=hi)], random_state=rs)
     else:
         model = getattr(cu, CLS[fam])(random_state=int(rng.integers(1 << 30)))
     ok, exc = ctx.call(model.fit, x.copy())
@@ -227,8 +239,10 @@ def _support(spec, ctx):
     else:
         ctx.violation('support.samples-inside', 'C04:%s-sample-%s' % (fam, exc_mech(s)), dict(exc_detail(s), **where))
     if fam == 'truncnorm':
-        ctx.check(model.min == lo and model.max == hi, 'support.user-bounds-kept', 'C04:truncnorm-user-bounds-changed',
-                  lambda: dict(where, given=[lo, hi], now=[model.min, model.max]))
+        inner = getattr(model, '_instance', None) or model
+        ctx.check(type(inner).__name__ == 'TruncatedGaussian' and inner.min == lo and inner.max == hi, 'support.user-bounds-kept',
+                  'C04:truncnorm-user-bounds-changed',
+                  lambda: dict(where, given=[lo, hi], now=[getattr(inner, 'min', None), getattr(inner, 'max', None)], fitted=type(inner).__name__))
         okq, ends = ctx.call(model.percent_point, np.array([0.0, 1.0]))
         if okq:
             ends = np.asarray(ends, dtype=float)
@@ -277,7 +291,16 @@ def _kde(spec, ctx):
          rng.gamma(2.0, 3.0, n)][kind]
     w = rng.random(n) + 0.05 if spec['weighted'] else None
     where = {'n': n, 'bw': spec['bw'], 'weighted': spec['weighted'], 'sample_size': spec['sample_size']}
-    model = GaussianKDE(bw_method=spec['bw'], weights=w, sample_size=spec['sample_size'])
+    via = 'keyword' if w is not None else ['keyword', 'positional', 'wrapper-positional'][spec['seed'] % 3]
+    where['via'] = via
+    if via == 'keyword':
+        model = GaussianKDE(bw_method=spec['bw'], weights=w, sample_size=spec['sample_size'])
+    elif via == 'positional':
+        model = GaussianKDE(spec['sample_size'], None, spec['bw'])
+    else:
+        # the selecting wrapper fits a copy of the prototype (made by get_instance) and delegates to it
+        from copulas.univariate import Univariate
+        model = Univariate(candidates=[GaussianKDE(spec['sample_size'], bw_method=spec['bw'])])
     if spec['seed'] % 3 == 0 and not spec['weighted']:
         # the object was fitted before on data of another size and used
         past = rng.normal(size=int(rng.choice([7, 3 * n + 11])))
@@ -290,7 +313,11 @@ def _kde(spec, ctx):
     if not ok:
         ctx.violation('kde.fit', 'C04:kde-fit-' + exc_mech(exc), dict(exc_detail(exc), **where))
         return
-    stored = np.asarray(model._params['dataset'], dtype=float).ravel()
+    inner = getattr(model, '_instance', None) or model
+    if not ctx.check(type(inner).__name__ == 'GaussianKDE', 'kde.fitted-class', 'C04:kde-wrapper-fitted-another-class',
+                     lambda: dict(where, fitted=type(inner).__name__)):
+        return
+    stored = np.asarray(inner._params['dataset'], dtype=float).ravel()
     if spec['sample_size']:
         ctx.check(len(stored) == spec['sample_size'], 'kde.sample-size', 'C04:kde-stored-dataset-wrong-size',
                   lambda: dict(where, stored=len(stored)))
